@@ -32,6 +32,7 @@ MIN_REACH = {
     "crops_also_reaped_as_a_table": {"quick": 8, "thorough": 120},
     "reaps_told_to_wait_on_ten_and_more_batches": {"quick": 4, "thorough": 80},
     "pipelines_while_another_thread_draws_random_numbers": {"quick": 15, "thorough": 300},
+    "pipelines_whose_function_is_a_decorated_one": {"quick": 8, "thorough": 200},
     "fresh_process_steps": {"quick": 15, "thorough": 300},
     "batches_grown": {"quick": 450, "thorough": 10000},
     "positions_compared": {"quick": 700, "thorough": 25000},
@@ -97,6 +98,7 @@ def cases(ctx):
         c["table_first"] = i % 2 == 1
         c["reap_waits"] = i % 3 == 0
         c["other_thread_draws"] = i % 4 == 2 and not c["fresh"]
+        c["decorated"] = i % 5 == 3 and not c["fresh"]
         yield c
     # loky workers inside grow / across batches (slow to start, sampled)
     for i in range(ctx.pick(8, 60)):
@@ -227,6 +229,12 @@ def _run_case(ctx, case):
             ctl = os.path.join(tmp, "ctl.json")
             probe.write_ctl(ctl, jitter_us=case["jitter_us"], jitter_seed=case["pseed"])
         fn = cropkit.build_probe(kind, logfile, ctl=ctl, name="probe", by_value=case["by_value"])
+        argn_ = list(w["names"] or []) + [a for a, _ in w["combos"]] + list(constants)
+        if case.get("decorated") and all(isinstance(a, str) and a.isidentifier() for a in argn_) and len(set(argn_)) == len(argn_):
+            # the swept function is a functools.wraps-DECORATED one: the decorator is the part that leaves a trace in the
+            # call log (the function underneath computes the same values silently) - what is grown is what was given
+            fn = probe.make_fn(argn_, kind=kind, logfile=logfile, ctl=ctl, name="probe", wrapped=True)
+            ctx.count("pipelines_whose_function_is_a_decorated_one")
         try:
             with quiet():
                 if case.get("save_fn") is False:
